@@ -132,7 +132,7 @@ def run(ctx):
             ctx.fail(f)
             ctx.ev.excluded_known["C05-early-return-drops-buffered-content"] += 1
         ctx.ev.case(key=case, nontrivial=False, labels=("dedicated",))
-    n = ctx.pick(110, 6000)
+    n = ctx.pick(350, 6000)
     ctx.pmap(shard, [(ctx.shard_seed(i), n) for i in range(16)])
 
 
